@@ -101,8 +101,72 @@ struct Padded(AtomicU64);
 static CALLS: [[Padded; 72]; 256] = [const { [const { Padded(AtomicU64::new(0)) }; 72] }; 256];
 static RUN_SEQ: AtomicU64 = AtomicU64::new(0);
 
+// Phase-order monitor for bodies that generate inputs (mode 2): every generator exit and every call entry takes the next slot of one
+// global sequence (the slot index is the order; lock-free, allocation-free). Judged at the end of each run: in no round may a thread
+// enter its first call before every thread has left its last generator call (C08 through the real runner).
+const ORD_CAP: usize = 1 << 16;
+static ORD_NEXT: std::sync::atomic::AtomicUsize = std::sync::atomic::AtomicUsize::new(0);
+static ORD_BUF: [std::sync::atomic::AtomicU32; ORD_CAP] = [const { std::sync::atomic::AtomicU32::new(0) }; ORD_CAP];
+
+#[inline]
+fn ord_event(kind: u32) {
+    let i = ORD_NEXT.fetch_add(1, SeqCst);
+    if i < ORD_CAP {
+        ORD_BUF[i].store(((kidx() as u32 + 1) << 8) | kind, SeqCst);
+    }
+}
+
+/// (rounds judged, rounds in which a call began before another thread's generation had ended, threads seen)
+fn ord_judge() -> (usize, usize, usize) {
+    let n = ORD_NEXT.load(SeqCst).min(ORD_CAP);
+    let mut per: std::collections::BTreeMap<u32, Vec<(usize, u32)>> = std::collections::BTreeMap::new();
+    for (i, slot) in ORD_BUF.iter().enumerate().take(n) {
+        let v = slot.load(SeqCst);
+        if v != 0 {
+            per.entry(v >> 8).or_default().push((i, v & 0xFF));
+        }
+    }
+    // per thread: rounds = (seq of last generator exit, seq of first call) of each "gen+ call+" block
+    let mut rounds: Vec<Vec<(usize, usize)>> = Vec::new();
+    for evs in per.values() {
+        let mut r = Vec::new();
+        let mut last_gen: Option<usize> = None;
+        let mut in_calls = false;
+        for &(seq, kind) in evs {
+            if kind == 1 {
+                last_gen = Some(seq);
+                in_calls = false;
+            } else if !in_calls {
+                if let Some(g) = last_gen {
+                    r.push((g, seq));
+                }
+                in_calls = true;
+            }
+        }
+        rounds.push(r);
+    }
+    let threads = rounds.len();
+    if threads < 2 || n >= ORD_CAP {
+        return (0, 0, threads);
+    }
+    let nr = rounds.iter().map(|r| r.len()).min().unwrap_or(0);
+    if rounds.iter().any(|r| r.len() != nr) {
+        return (0, 0, threads); // ragged (a panic, a thread that made no call): not judged here
+    }
+    let mut bad = 0;
+    for i in 0..nr {
+        let last_gen = rounds.iter().map(|r| r[i].0).max().unwrap();
+        let first_call = rounds.iter().map(|r| r[i].1).min().unwrap();
+        if first_call < last_gen {
+            bad += 1;
+        }
+    }
+    (nr, bad, threads)
+}
+
 thread_local! {
     static ORD: Cell<(u64, u64)> = const { Cell::new((0, 0)) };
+    static GENS: Cell<(u64, u64)> = const { Cell::new((0, 0)) };
 }
 
 fn reg() -> &'static Registry {
@@ -288,6 +352,7 @@ fn run_body(bid: usize, label: &str, bencher: Bencher) {
         c.0.store(0, SeqCst);
     }
     log_line(format!("enter {bid} {label}"));
+    ORD_NEXT.store(0, SeqCst);
     let mut bencher = bencher;
     for &(kind, value) in &beh.bcounters {
         bencher = match kind {
@@ -305,9 +370,25 @@ fn run_body(bid: usize, label: &str, bencher: Bencher) {
             bencher
                 .with_inputs(move || {
                     clock::charge(gc);
+                    // the first few generator calls of a run are slow (in real time) on the first pool thread: a round in which
+                    // the others do not wait for it shows in the phase-order monitor
+                    let g = GENS.try_with(|c| {
+                        let (r, n) = c.get();
+                        let run = RUN_SEQ.load(Relaxed);
+                        let n = if r == run { n } else { 0 };
+                        c.set((run, n + 1));
+                        n
+                    });
+                    if kidx() == 1 && g.unwrap_or(99) < 6 {
+                        std::thread::sleep(std::time::Duration::from_micros(150));
+                    }
+                    ord_event(1);
                     7u64
                 })
-                .bench_values(|_x| body_call(bid))
+                .bench_values(|_x| {
+                    ord_event(2);
+                    body_call(bid)
+                })
         }
         4 => bencher.with_inputs(|| 12u64).count_inputs_as::<ItemsCount>().bench_refs(|_x| body_call(bid)),
         _ => drop(bencher),
@@ -321,6 +402,12 @@ fn run_body(bid: usize, label: &str, bencher: Bencher) {
         })
         .collect();
     log_line(format!("run {bid} {label} {}", if counts.is_empty() { "-".to_owned() } else { counts.join(",") }));
+    if beh.mode == 2 {
+        let (rounds, bad, threads) = ord_judge();
+        if threads >= 2 {
+            log_line(format!("ord {bid} {threads} {rounds} {bad}"));
+        }
+    }
 }
 
 fn plain<const N: usize>(bencher: Bencher) {
